@@ -538,6 +538,21 @@ func GenIngressProgram(t *rapid.T, prof IngressProfile) *Program {
 			}
 			return p
 		}
+		if prof.Rate && rapid.IntRange(0, 2).Draw(t, "race.tick?") != 0 {
+			// the clock moves while the requests are in flight; afterwards the same
+			// request again, a few times: whatever the race did to a limiter's
+			// bookkeeping shows in what it admits next
+			st.D = rapid.SampledFrom([]time.Duration{50 * time.Millisecond, 100 * time.Millisecond, 200 * time.Millisecond, 300 * time.Millisecond, time.Second}).Draw(t, "race.tick")
+			p.Steps = append(p.Steps, st)
+			for k := rapid.IntRange(1, 4).Draw(t, "race.after.n"); k > 0; k-- {
+				if rapid.Bool().Draw(t, "race.after.adv?") {
+					p.Steps = append(p.Steps, Step{Op: "advance", D: rapid.SampledFrom([]time.Duration{time.Millisecond, 200 * time.Millisecond, time.Second}).Draw(t, "race.after.d")})
+				}
+				after := *base
+				p.Steps = append(p.Steps, Step{Op: "ingress", Req: &after})
+			}
+			return p
+		}
 		p.Steps = append(p.Steps, st)
 	}
 	return p
